@@ -137,6 +137,7 @@ fn unhex(s: &str) -> Vec<u8> {
 
 /// Fresh-process side: deserialize documents and print their rendering.
 fn child(path: &str) {
+    quiet_panics();
     // shift every table so that ids differ from the parent's
     for i in 0..5 {
         intern(format!("shift{i}"));
@@ -147,10 +148,11 @@ fn child(path: &str) {
     let mut out = vec![];
     for line in text.lines() {
         let (kind, payload) = line.split_once(' ').unwrap();
-        let d: Result<Doc, String> = match kind {
+        let d: Result<Doc, String> = std::panic::catch_unwind(|| match kind {
             "bincode" => WithIntern::strip(bincode::deserialize::<WithIntern<Doc>>(&unhex(payload))).map_err(|e| e.to_string()),
             _ => WithIntern::strip(serde_json::from_str::<WithIntern<Doc>>(payload)).map_err(|e| e.to_string()),
-        };
+        })
+        .unwrap_or_else(|p| Err(format!("panic: {}", panic_message(&*p))));
         out.push(match d {
             Ok(d) => render(&d),
             Err(e) => format!("ERROR {e}"),
@@ -296,6 +298,17 @@ pub fn main(args: &Args) {
     let mut expected = vec![];
     for d in &docs {
         evaluations += 1;
+        // a panic inside the (de)serializer is a verdict about this document, not a harness crash
+        let guarded = std::panic::catch_unwind(|| {
+            let bin = bincode::serialize(&WithIntern(d)).unwrap();
+            let _: Result<Doc, _> = WithIntern::strip(bincode::deserialize::<WithIntern<Doc>>(&bin));
+            let js = serde_json::to_string(&WithIntern(d)).unwrap();
+            let _: Result<Doc, _> = WithIntern::strip(serde_json::from_str::<WithIntern<Doc>>(&js));
+        });
+        if let Err(p) = guarded {
+            fail("serde-panic", format!("serde round trip of {} panicked: {}", render(d), panic_message(&*p)), json!({"doc": render(d)}));
+            continue;
+        }
         let bin = bincode::serialize(&WithIntern(d)).unwrap();
         let back: Result<Doc, _> = WithIntern::strip(bincode::deserialize::<WithIntern<Doc>>(&bin));
         if back.as_ref().ok() != Some(d) {
